@@ -6,6 +6,9 @@
  * integers (unsorted, repeated, outside the symmetric range): the constructor must normalise.
  * polynomial term (prefix tokens):  N c  |  P v n t_0 ... t_{n-1}   (v: 0 = x (top), 1 = y, 2 = z)        */
 #include "common.h"
+#include <unistd.h>
+#include <sys/wait.h>
+#include <signal.h>
 #include <integer.h>
 #include <feasibility_set_int.h>
 #include <upolynomial.h>
@@ -23,6 +26,7 @@ extern int lp_verif_force_rabin __attribute__((weak));
 static lp_variable_db_t* g_db;
 static lp_variable_order_t* g_order;
 static lp_variable_t g_var[3];
+static int g_child = 0;
 
 static lp_int_ring_t* mkring(const char* m) {
   lp_integer_t M; mpz_init_set_str(&M, m, 10);
@@ -204,7 +208,29 @@ int main(void) {
   lp_variable_order_push(g_order, g_var[0]);
 
   while (next_case()) {
+    /* watchdog: every case takes milliseconds; a library call that does not return (e.g. materialising the
+     * complement of a set over a 2^31-element field) kills the driver = a crash of this case, no partial line */
+    alarm(10);
     if (vntok < 2) { end_case(); continue; }
+    /* set operations over a big field, and multivariate reductions, run in a child: a wrong branch there (materialising the complement of a
+     * set over a 2^31.. element field) hangs or dies, and must cost this one case, not a driver restart */
+    if ((is_op("bin") && strlen(vtok[1]) > 6) || is_op("redm")) {
+      fflush(stdout);
+      pid_t pid = fork();
+      if (pid > 0) {
+        alarm(30);
+        int st = 0; waitpid(pid, &st, 0);
+        if (!(WIFEXITED(st) && WEXITSTATUS(st) == 0)) {
+          if (WIFSIGNALED(st)) printf("CRASH signal %d%s", WTERMSIG(st), WTERMSIG(st) == SIGALRM ? " (no answer within 8 s)" : "");
+          else printf("CRASH exit %d", WEXITSTATUS(st));
+          end_case();
+        }
+        alarm(0);
+        continue;
+      }
+      /* child (or fork failed: run in place) */
+      if (pid == 0) { g_child = 1; alarm(8); }   /* alarms are not inherited across fork */
+    }
     lp_int_ring_t* K = mkring(vtok[1]);
 
     if (is_op("obs")) {
@@ -368,6 +394,11 @@ int main(void) {
       printf("deg=%lu,%lu,%lu A=", d[0], d[1], d[2]); print_all_values(A, K);
       printf(" R="); print_all_values(R1, K);
       if (!same_poly_print(R1, R3)) printf(" MISMATCH-alias");
+      /* reducing again must not change anything */
+      lp_polynomial_t* R4 = lp_polynomial_new(ctx);
+      lp_polynomial_reduce_degree_Zp(R4, R1);
+      if (!same_poly_print(R1, R4)) printf(" MISMATCH-not-idempotent");
+      lp_polynomial_delete(R4);
       lp_polynomial_delete(A); lp_polynomial_delete(R1); lp_polynomial_delete(R3);
       lp_polynomial_context_detach(ctx);
     } else {
@@ -375,6 +406,8 @@ int main(void) {
     }
     lp_int_ring_detach(K);
     end_case();
+    if (g_child) _exit(0);
+    alarm(0);
   }
   lp_variable_order_detach(g_order);
   lp_variable_db_detach(g_db);
